@@ -75,6 +75,7 @@ let table : (string * (sexp -> sexp)) list = [
   ("C15", run_C15);
   ("C16", run_C16);
   ("C18", run_C18);
+  ("C17", run_C17);
 ]
 
 let () =
